@@ -22,6 +22,12 @@ use super::{
 
 type Error = String;
 
+/// The all-affiliate share balance is maintained separately from the affiliates'
+/// own balances, and Decimal arithmetic rounds past 28 significant digits (eg.
+/// after a 1.0-for-3.0 split), so the two can drift apart in the last places.
+/// Differences below this are rounding, not missing shares.
+const SHARE_BALANCE_ROUNDING_TOLERANCE: Decimal = dec!(0.000000000000001);
+
 // These are presumably possible to encounter from bad user input.
 // Some of them at least.
 fn sanity_check_ptfs(
@@ -37,7 +43,9 @@ fn sanity_check_ptfs(
         )
     };
 
-    if *pre_tx_status.all_affiliate_share_balance < *pre_tx_status.share_balance {
+    if *pre_tx_status.all_affiliate_share_balance + SHARE_BALANCE_ROUNDING_TOLERANCE
+        < *pre_tx_status.share_balance
+    {
         Err(format!(
             "{} the share balance across all affiliates \
         ({}) is lower than the share balance for the affiliate of the transaction \
@@ -267,9 +275,15 @@ fn delta_for_tx(
                     tx.trade_date, sell_specs.shares, tx.security,
                     pre_tx_status.share_balance)
                 })?;
-            new_all_affiliates_share_balance = GreaterEqualZeroDecimal::try_from(
-                *pre_tx_status.all_affiliate_share_balance - *sell_specs.shares,
-            )
+            let mut all_shares_after_sale =
+                *pre_tx_status.all_affiliate_share_balance - *sell_specs.shares;
+            if all_shares_after_sale.is_sign_negative()
+                && all_shares_after_sale.abs() <= SHARE_BALANCE_ROUNDING_TOLERANCE
+            {
+                all_shares_after_sale = Decimal::ZERO;
+            }
+            new_all_affiliates_share_balance =
+                GreaterEqualZeroDecimal::try_from(all_shares_after_sale)
             .map_err(|_| {
                 format!(
                     "Sell order on {} of {} shares of {} is more than the current \
